@@ -118,7 +118,7 @@ func c06(x *mon.Ctx) {
 	enableTwins(x)
 	x.Level = "fault_enumeration"
 	x.Rule = "14 artefact roles, each with its own window, plus the two roles of the usual PCS situation in which TCB Info and QE Identity arrive with ONE byte-identical issuer chain (shared signer, shared header root: governed by both the TCB-Info and the QE-Identity time) (the root is issued five times with one key and name: in the quote, in each of the three issuer-chain headers, in the pool; the PCK-CRL header carries its own copy of the intermediate; TCB-Info and QE-Identity have different signers): (1) boundary grid — for each role's expiry {1 s before, at, 1 s after} at each governing time entry with everything else 10 years away, and for the five path-validated certificates the same around notBefore; (2) 'judged at its own time' — for every role and every time entry: only that entry past the role's expiry (must reject iff the entry governs the role) and every OTHER entry past it while the governing ones are before (must accept); (3) monotonicity — all five times at expiry + {1 s, 1 h, 1 d, 30 d, 365 d} must reject; (4) random assignments of windows and five pairwise distinct times judged by the reference (accept => every listed condition holds at its own time). Run at the lowest option level where the role matters and above. distinct = (class, role, time entry, offset, level)."
-	x.Assume = []string{"zero time.Time entries are excluded (the statement speaks of caller-supplied times)", "crypto/x509 enforces validity periods on the paths it validates"}
+	x.Assume = []string{"zero time.Time entries are excluded from the must-accept cases (the statement speaks of caller-supplied times); a time set with ONE unset entry and the governing entry past the expiry is a must-reject case", "crypto/x509 enforces validity periods on the paths it validates"}
 	enableShadow(x)
 	r := x.Rand("keys")
 	k := &c06Keys{root: world.NewKey(), inter: world.NewKey(), leaf: world.NewKey(), tcb: world.NewKey(), qe: world.NewKey(), p: world.RandPlatform(r)}
@@ -164,6 +164,22 @@ func c06(x *mon.Ctx) {
 					w2 := w.Clone()
 					w2.Times[g] = E.Add(d.off)
 					add(w2, lvl, "expiry-boundary/"+role, fmt.Sprintf("%s@%s", d.name, timeNames[g]), d.exp)
+				}
+			}
+			// (1b) the governing entry just past the expiry while ONE other entry of the time set is left at its zero value: whatever an
+			//      unset entry means for the artefacts it governs, this artefact is judged against its own entry and has expired
+			for _, g := range c06Gov[role] {
+				if (g == world.TTcbInfo || g == world.TQeIdentity) && lvl < world.LColl {
+					continue
+				}
+				for z := 0; z < 5; z++ {
+					if z == g {
+						continue
+					}
+					w2 := w.Clone()
+					w2.Times[g] = E.Add(sec)
+					w2.Times[z] = time.Time{}
+					add(w2, lvl, "expired-with-another-entry-unset/"+role, fmt.Sprintf("1s-after@%s/unset=%s", timeNames[g], timeNames[z]), "reject")
 				}
 			}
 			// (2) judged at its own time
